@@ -327,12 +327,21 @@ def resetModule (s : St) (m : ModId) : St :=
     let s4 := destroyEvts s3 md.batch []
     s4.updMod m Mod.reset
 
-/-- `stop(mod, stopping)` -/
-def stopP (m : ModId) (stopping : Bool) : Prog Int := do
+/-- the state-changing step of `stop()`: the running counter of the module's context follows, the module
+leaves the table when it is being deregistered, the state changes -/
+def stopStep (s : St) (m : ModId) (x : MState) (leave : Bool) : St :=
+  setState (if leave then
+      (if stateIs s m .running then s.updCtxId (s.ctxIdOf m) (fun c => { c with running := c.running - 1 }) else s).updMod m
+        (fun y => { y with inCtx := false })
+    else (if stateIs s m .running then s.updCtxId (s.ctxIdOf m) (fun c => { c with running := c.running - 1 }) else s)) m x
+
+/-- `stop(mod, stopping)`.  `leave` is set by `mod_deregister`, which takes the module out of its
+context's table (`m_map_remove`) right before calling `stop()`: nothing can observe the table between
+the two (no callback runs in `manage_srcs`), so the model performs the removal together with the state
+change — that keeps "out of the table ⇒ STOPPED or ZOMBIE" true in every intermediate state. -/
+def stopP (m : ModId) (stopping : Bool) (leave : Bool := false) : Prog Int := do
   modify fun s => manageSrcsRm s m stopping
-  modify fun s =>
-    let s1 := if stateIs s m .running then s.updCtxId (s.ctxIdOf m) fun c => { c with running := c.running - 1 } else s
-    setState s1 m (if stopping then .stopped else .paused)
+  modify fun s => stopStep s m (if stopping then .stopped else .paused) leave
   let s ← getSt
   let hasStop := match s.mods[m]? with | some md => md.hooks.stop | none => false
   let ret ← (if stopping then (do modify (fun s => resetModule s m); optionalHook m .stop hasStop) else pure 0)
@@ -416,8 +425,8 @@ def modDeregCore (autoRelease : Prog Int) (m : ModId) : Prog Int := do
       else
         if s.modByName md.name != some m then pure ENOENT   -- already out of its context
         else do
-          modify fun s => s.updMod m fun x => { x with inCtx := false }
-          let _ ← stopP m true
+          -- m_map_remove(c->modules, m->name), then stop()
+          let _ ← stopP m true true
           modify fun s => setState s m .zombie
           let s ← getSt
           match s.ctx with
@@ -462,24 +471,27 @@ def modDeregisterP (m : ModId) : Prog Int := modDeregCore ctxDeregisterP m
 def srcPrio (s : St) (e : Evt) : Option Prio := e.src.bind fun i => (s.srcs[i]?).map (·.prio)
 def srcRole (s : St) (e : Evt) : Role := (e.src.bind fun i => (s.srcs[i]?).map (·.role)).getD .user
 
+/-- first half of `push_evt`: internal events are dropped (the bucket timer refills one token), others are queued -/
+def pushEvtStore (s : St) (m : ModId) (e : Evt) : St :=
+  if srcRole s e != .user then
+    if srcRole s e == .tbTimer then
+      s.updMod m fun md =>
+        match md.tb with
+        | some tb => if tb.tokens < tb.burst then { md with tb := some { tb with tokens := tb.tokens + 1 } } else md
+        | none => md
+    else s
+  else
+    let e' := match e.src.bind (fun i => s.srcs[i]?) with
+      | some x => { e with userdata := x.userptr }
+      | none => e
+    s.updMod m fun md => { md with batch := md.batch ++ [e'] }
+
 /-- `push_evt` -/
 def pushEvtP (m : ModId) (e : Evt) : Prog Unit := do
   let s ← getSt
   let role := srcRole s e
   let prio := srcPrio s e
-  -- first half: internal events are dropped (and act), others are queued
-  if role != .user then
-    -- the bucket timer refills one token
-    if role == .tbTimer then
-      modify fun s => s.updMod m fun md =>
-        match md.tb with
-        | some tb => if tb.tokens < tb.burst then { md with tb := some { tb with tokens := tb.tokens + 1 } } else md
-        | none => md
-  else
-    let e' := match e.src.bind (fun i => s.srcs[i]?) with
-      | some x => { e with userdata := x.userptr }
-      | none => e
-    modify fun s => s.updMod m fun md => { md with batch := md.batch ++ [e'] }
+  modify fun s => pushEvtStore s m e
   let force := (role == .batchTimer) || (role == .user && prio == some .high)
   if role == .user && prio == some .low then pure ()
   else do
@@ -553,6 +565,18 @@ inductive PollEnt
   | bad (s : String)
   deriving Repr, DecidableEq
 
+/-- a one-shot subscription is removed once a message for it is read:
+`m_map_remove(mod->subscriptions, topic)` — whatever is registered under that topic now -/
+def consumeOneshot (s : St) (m : ModId) (md : Mod) (msg : Msg) : St :=
+  match msg.sub.bind (fun i => s.srcs[i]?) with
+  | some x =>
+    if x.oneshot then
+      match md.subs.find? (fun j => match s.srcs[j]? with | some y => y.registered && y.topic == x.topic | none => false) with
+      | some j => removeSrc s m j
+      | none => s
+    else s
+  | none => s
+
 /-- one entry of the batch (`for (i…)` body of `recv_events`); returns 1 when an event was received -/
 def recvOneP (p : PollEnt) : Prog Nat := do
   let s ← getSt
@@ -571,7 +595,7 @@ def recvOneP (p : PollEnt) : Prog Nat := do
       if !x.polled then pure 0       -- left the poll set because of a previous callback of this batch
       else do
         let e : Evt := { kind := x.kind, key := x.key, src := some i }
-        if x.oneshot then modify fun s => removeSrc s x.owner i
+        modify fun s => if x.oneshot then removeSrc s x.owner i else s
         pushEvtP x.owner e
         pure 1
   | .ps m =>
@@ -583,22 +607,14 @@ def recvOneP (p : PollEnt) : Prog Nat := do
       | some (msg :: rest) => do
         modify fun s => s.updMod m fun md => { md with pipe := some rest }
         -- one-shot subscription: consumed by its first message
-        match msg.sub.bind (fun i => s.srcs[i]?) with
-        | some x =>
-          -- `m_map_remove(mod->subscriptions, topic)`: whatever is registered under that topic now
-          if x.oneshot then
-            match md.subs.find? (fun j => match s.srcs[j]? with | some y => y.registered && y.topic == x.topic | none => false) with
-            | some j => modify fun s => removeSrc s m j
-            | none => pure ()
-        | none => pure ()
+        modify fun s => consumeOneshot s m md msg
         if msg.pill then do
           -- everything sent before the pill is delivered first, then the module is stopped
           let s ← getSt
           let b := match s.mods[m]? with | some md => md.batch | none => []
           modify fun s => destroyMsg s msg
-          if !b.isEmpty then do
-            modify fun s => s.updMod m fun md => { md with batch := [] }
-            callPubsubCb m b
+          modify fun s => s.updMod m fun md => { md with batch := [] }
+          callPubsubCb m b
           let s ← getSt
           if isRP s m then do let _ ← stopP m true; pure 1 else pure 1
         else do
@@ -743,16 +759,21 @@ def addSrc (s : St) (m : ModId) (x : Src) : St × Int :=
     let s1 := { s with srcs := s.srcs ++ [{ x with polled := running, registered := true }] }
     (s1.updMod m fun md => { md with srcs := md.srcs ++ [id] }, 0)
 
+/-- `rm_mod_src` of a library internal timer (no-op when none was set) -/
+def rmInternal (s : St) (m : ModId) (ns : Nat) (role : Role) : St :=
+  if ns != 0 then
+    match findSrc s m .tmr ns role with
+    | some i => removeSrc s m i
+    | none => s
+  else s
+
 def apiBatchTimeout (m : ModId) (ns : Nat) : Prog Int :=
   guarded m noDeny none true do
     let s ← getSt
     match s.mods[m]? with
     | none => pure EINVAL
     | some md => do
-      if md.batchTimer != 0 then
-        match findSrc s m .tmr md.batchTimer .batchTimer with
-        | some i => modify fun s => removeSrc s m i
-        | none => pure ()
+      modify fun s => rmInternal s m md.batchTimer .batchTimer
       modify fun s => s.updMod m fun md => { md with batchTimer := ns }
       if ns != 0 then do
         modify fun s => s.updMod m fun md => if md.batchLen = 0 && !md.batchInf then { md with batchInf := true } else md
@@ -773,10 +794,7 @@ def apiTokenBucket (m : ModId) (rate burst : Nat) : Prog Int :=
       match s.mods[m]? with
       | none => pure EINVAL
       | some md => do
-        if md.tbTimer != 0 then
-          match findSrc s m .tmr md.tbTimer .tbTimer with
-          | some i => modify fun s => removeSrc s m i
-          | none => pure ()
+        modify fun s => rmInternal s m md.tbTimer .tbTimer
         if rate = 0 then do
           modify fun s => s.updMod m fun md => { md with tb := none, tbTimer := 0 }
           pure 0
